@@ -1,4 +1,5 @@
 import Hyeong.Lemmas.SimNum
+import Hyeong.Lemmas.DefEquiv
 /-!
 # C01 — the interpreter executes every program according to the language definition
 
@@ -40,6 +41,42 @@ theorem related_stacks_mean {s : St NumI} {s' : St V} (h : RS RN s s') (i : Nat)
     | nil => rfl
     | cons _ _ ih => simp [ih]
   exact key (h.stacks i)
+
+/-- Against the stand-alone definition. `Hyeong.Spec.Definition` (`HyD`) is an executable definition of the
+language written on its own — its own state, push/pop rules of the I/O stacks 0/1/2, the six commands,
+the area walk, labels and the return heart, over `Option Rat` — sharing with the interpreter model only
+the data types of commands. For every program, input text and number `n` of commands: unless the
+definition declares the run unspecified, the interpreter model has written the same standard output and
+standard error, has the same input left, is at the same command and stands the same way (running /
+ended / exit 0|1 / encoding error), and — while no halt has occurred — holds corresponding stacks,
+selected stack, labels and return point. -/
+theorem meets_definition (p : List Cmd) (input : List Char) (n : Nat) :
+    (HyD.run p n (HyD.initial input) 0).2.2 = .halted .unspecified ∨
+    ((runN p n (initCfg input)).1.m.2 = HyD.toW (HyD.run p n (HyD.initial input) 0).1 ∧
+     (runN p n (initCfg input)).1.loc = (HyD.run p n (HyD.initial input) 0).2.1 ∧
+     (runN p n (initCfg input)).2 = HyD.toStatus (HyD.run p n (HyD.initial input) 0).2.2 ∧
+     ((∀ h, (HyD.run p n (HyD.initial input) 0).2.2 ≠ .halted h) →
+        RS RN (runN p n (initCfg input)).1.m.1 (HyD.toSt (HyD.run p n (HyD.initial input) 0).1))) := by
+  have hd := HyD.run_eq p n (HyD.initial input) 0
+  have e : (⟨HyD.toM (HyD.initial input), 0⟩ : Cfg V) = specInit input := rfl
+  rw [e] at hd
+  rcases run_refines_spec p input n with hu | ⟨ho, hrs⟩
+  · left
+    rw [hd.2.2.1] at hu
+    cases hs : (HyD.run p n (HyD.initial input) 0).2.2 with
+    | running => rw [hs] at hu; cases hu
+    | ended => rw [hs] at hu; cases hu
+    | halted h =>
+      rw [hs] at hu
+      cases h with
+      | exit k => cases hu
+      | encodingError k => cases hu
+      | unspecified => rfl
+  · right
+    simp only [obs, Prod.mk.injEq] at ho
+    refine ⟨by rw [ho.1, hd.1], by rw [ho.2.1, hd.2.1], by rw [ho.2.2, hd.2.2.1], fun hh => ?_⟩
+    rw [← hd.2.2.2 hh]
+    exact hrs
 
 /-- non-vacuity: a program that prints, jumps and exits; model and definition agree after 10 steps -/
 example : obs (runN [⟨0, 1, 8, 8, .val 3 .nil .nil⟩, ⟨0, 1, 9, 9, .nil⟩, ⟨1, 1, 1, 1, .nil⟩, ⟨5, 1, 1, 1, .val 0 .nil .nil⟩] 10 (initCfg [])) =
